@@ -114,28 +114,140 @@ class CallGraph:
 # ---------------------------------------------------------------------------
 # panic sites
 
+INTS = ("i8", "i16", "i32", "i64", "i128", "isize", "u8", "u16", "u32", "u64", "u128", "usize")
+# integer methods that panic on a zero divisor, overflow (debug), or an out-of-domain argument
+_INT_PANICKY = ("pow", "abs", "div_euclid", "rem_euclid", "isqrt", "ilog", "ilog2", "ilog10", "next_power_of_two",
+                "next_multiple_of", "div_ceil", "div_floor", "wrapping_div", "wrapping_rem", "wrapping_div_euclid",
+                "wrapping_rem_euclid", "overflowing_div", "overflowing_rem", "overflowing_div_euclid",
+                "overflowing_rem_euclid", "saturating_div", "strict_add", "strict_sub", "strict_mul", "strict_div",
+                "strict_rem", "strict_neg", "strict_pow", "strict_shl", "strict_shr", "strict_abs",
+                "unchecked_add", "unchecked_sub", "unchecked_mul", "unchecked_shl", "unchecked_shr", "from_str_radix",
+                "midpoint_unchecked", "clamp")
+
+# std / core / alloc callees that may panic for some argument (documented "# Panics" sections, confirmed by reading)
 MAY_PANIC_CALLEES = [
     "Option::unwrap", "Option::expect", "Result::unwrap", "Result::expect",
-    "Result::unwrap_err", "Result::expect_err",
+    "Result::unwrap_err", "Result::expect_err", "Option::unwrap_unchecked", "Result::unwrap_unchecked",
     "Index::index", "IndexMut::index_mut",
     "[T]::swap_with_slice", "[T]::copy_from_slice",
     "[T]::clone_from_slice", "[T]::split_at",
     "[T]::split_at_mut", "[T]::swap",
-    "[T]::chunks", "[T]::windows", "[T]::rotate_left",
-    "[T]::rotate_right", "[T]::copy_within",
+    "[T]::chunks", "[T]::chunks_mut", "[T]::chunks_exact", "[T]::chunks_exact_mut", "[T]::rchunks", "[T]::rchunks_mut",
+    "[T]::rchunks_exact", "[T]::windows", "[T]::rotate_left",
+    "[T]::rotate_right", "[T]::copy_within", "[T]::select_nth_unstable", "[T]::select_nth_unstable_by",
+    "[T]::select_nth_unstable_by_key", "[T]::get_unchecked", "[T]::get_unchecked_mut", "[T]::as_chunks",
     "Vec::remove", "Vec::insert", "Vec::swap_remove",
-    "Vec::split_off", "Vec::drain", "Vec::splice",
-    "String::remove", "String::insert", "String::insert_str", "String::split_off",
-    "RefCell::borrow", "RefCell::borrow_mut",
-    "Rng::random_range", "Rng::random_bool", "Rng::random_ratio", "Rng::gen_range", "Rng::gen_bool",
-    "Iterator::step_by", "Rc::get_mut_unchecked",
-    "ops::Div::div", "ops::Rem::rem", "ops::Shl::shl", "ops::Shr::shr",
-    "NonZero::new_unchecked", "Duration::new", "Instant::duration_since",
-    "char::from_digit", "str::split_at",
-    "i64::pow", "i64::abs", "i64::div_euclid", "i64::rem_euclid",
-    "Layout::from_size_align_unchecked", "thread::spawn", "JoinHandle::join",
-    "process::exit", "process::abort",
+    "Vec::split_off", "Vec::drain", "Vec::splice", "Vec::extend_from_within", "Vec::set_len", "Vec::from_raw_parts",
+    "VecDeque::insert", "VecDeque::swap", "VecDeque::split_off", "VecDeque::drain", "VecDeque::range", "VecDeque::rotate_left", "VecDeque::rotate_right",
+    "String::remove", "String::insert", "String::insert_str", "String::split_off", "String::truncate", "String::drain", "String::replace_range",
+    "RefCell::borrow", "RefCell::borrow_mut", "RefCell::replace", "RefCell::replace_with", "RefCell::swap", "RefCell::take",
+    "Rng::random_range", "Rng::random_bool", "Rng::random_ratio", "Rng::gen_range", "Rng::gen_bool", "Rng::gen_ratio",
+    "rand::random_range", "rand::random_bool", "rand::random_ratio", "index::sample", "IteratorRandom::choose_multiple_fill",
+    "Iterator::step_by", "Iterator::sum", "Iterator::product", "Rc::get_mut_unchecked",
+    "ops::Div::div", "ops::Rem::rem", "ops::Shl::shl", "ops::Shr::shr", "ops::DivAssign::div_assign", "ops::RemAssign::rem_assign",
+    "NonZero::new_unchecked", "Duration::new", "Duration::from_secs_f64", "Duration::from_secs_f32", "Duration::mul_f64", "Duration::mul_f32",
+    "Duration::div_f64", "Duration::div_f32", "Instant::duration_since",
+    "char::from_digit", "char::to_digit", "char::from_u32_unchecked", "char::is_digit", "str::split_at", "str::split_at_mut",
+    "str::from_utf8_unchecked", "str::get_unchecked", "str::repeat", "[T]::repeat",
+    "Ord::clamp", "f64::clamp", "f32::clamp", "PartialOrd::clamp",
+    "Layout::from_size_align_unchecked", "thread::spawn", "JoinHandle::join", "thread::scope", "mpsc::Receiver::recv",
+    "process::exit", "process::abort", "hint::unreachable_unchecked", "hint::assert_unchecked",
+    "f64::to_int_unchecked", "f32::to_int_unchecked",
+    # easy_cast: the non-try conversions panic on an out-of-range value (with debug assertions or its always_assert feature)
+    "Conv::conv", "ConvApprox::conv_approx", "ConvFloat::conv_trunc", "ConvFloat::conv_nearest", "ConvFloat::conv_floor", "ConvFloat::conv_ceil",
+    "Cast::cast", "CastApprox::cast_approx", "CastFloat::cast_trunc", "CastFloat::cast_nearest", "CastFloat::cast_floor", "CastFloat::cast_ceil",
+    # num_traits operations that forward to panicking integer operations
+    "Signed::abs", "Signed::abs_sub", "Pow::pow", "num_traits::pow", "pow::pow", "Num::from_str_radix", "Euclid::div_euclid", "Euclid::rem_euclid",
+    "Integer::div_floor", "Integer::mod_floor", "Integer::gcd", "Integer::lcm", "Integer::div_rem",
+    # ordered_float::NotNan arithmetic panics when the result is NaN
+    "NotNan::new_unchecked",
+    # itertools
+    "Itertools::chunks", "Itertools::exactly_one", "Itertools::tuples", "Itertools::multi_cartesian_product",
+] + ["%s::%s" % (t, m) for t in INTS for m in _INT_PANICKY]
+
+STD_CRATES = ("std", "core", "alloc", "hashbrown", "std_detect", "proc_macro", "test")
+
+# third-party callees read and confirmed not to panic for any argument (suffixes of the resolved path);
+# a call into a third-party crate that is on neither table is reported as `unvetted` in a panic-audited scope
+THIRD_PARTY_NO_PANIC = [
+    # rand 0.9: only random_range / random_bool / random_ratio (and seq::index::sample) document panics
+    "Rng::random", "Rng::random_iter", "Rng::sample", "Rng::sample_iter", "Rng::fill", "Rng::reborrow",
+    "rand::rng", "rand::random", "rand::random_iter", "RngCore::next_u32", "RngCore::next_u64", "RngCore::fill_bytes",
+    "SeedableRng::seed_from_u64", "SeedableRng::from_seed", "SeedableRng::from_rng", "SeedableRng::from_os_rng",
+    "Distribution::sample", "Distribution::sample_iter", "Distribution::map",
+    "Bernoulli::new", "Bernoulli::from_ratio", "Bernoulli::p", "Uniform::new", "Uniform::new_inclusive",
+    "Choose::new", "Choose::num_choices", "WeightedIndex::new", "WeightedIndex::weight", "WeightedIndex::weights",
+    "IndexedRandom::choose", "IndexedRandom::choose_multiple", "IndexedRandom::choose_weighted",
+    "IndexedRandom::choose_multiple_weighted", "IndexedMutRandom::choose_mut", "IndexedMutRandom::choose_weighted_mut",
+    "SliceRandom::shuffle", "SliceRandom::partial_shuffle",
+    "IteratorRandom::choose", "IteratorRandom::choose_stable", "IteratorRandom::choose_multiple",
+    "UniformSampler::new", "UniformSampler::new_inclusive", "UniformSampler::sample", "SampleRange::is_empty",
+    # num_traits: total conversions / constants / checked, saturating and wrapping forms / float classification
+    "ToPrimitive::to_f32", "ToPrimitive::to_f64", "ToPrimitive::to_i64", "ToPrimitive::to_u64", "ToPrimitive::to_usize",
+    "ToPrimitive::to_isize", "ToPrimitive::to_i32", "ToPrimitive::to_u32", "ToPrimitive::to_i128", "ToPrimitive::to_u128",
+    "ToPrimitive::to_i8", "ToPrimitive::to_u8", "ToPrimitive::to_i16", "ToPrimitive::to_u16",
+    "FromPrimitive::from_f32", "FromPrimitive::from_f64", "FromPrimitive::from_i64", "FromPrimitive::from_u64",
+    "FromPrimitive::from_usize", "FromPrimitive::from_isize", "FromPrimitive::from_i32", "FromPrimitive::from_u32",
+    "NumCast::from", "cast::cast", "AsPrimitive::as_", "Zero::zero", "Zero::is_zero", "One::one", "One::is_one",
+    "Bounded::min_value", "Bounded::max_value", "CheckedAdd::checked_add", "CheckedSub::checked_sub",
+    "CheckedMul::checked_mul", "CheckedDiv::checked_div", "CheckedRem::checked_rem", "CheckedNeg::checked_neg",
+    "SaturatingAdd::saturating_add", "SaturatingSub::saturating_sub", "SaturatingMul::saturating_mul",
+    "WrappingAdd::wrapping_add", "WrappingSub::wrapping_sub", "WrappingMul::wrapping_mul", "WrappingNeg::wrapping_neg",
+    "Signed::signum", "Signed::is_positive", "Signed::is_negative",
+    "Float::is_nan", "Float::is_finite", "Float::is_infinite", "Float::abs", "Float::floor", "Float::ceil", "Float::round",
+    "Float::trunc", "Float::sqrt", "Float::powi", "Float::powf", "Float::min", "Float::max", "Float::nan", "Float::infinity",
+    # easy_cast: the try_ forms return a Result
+    "Conv::try_conv", "ConvApprox::try_conv_approx", "ConvFloat::try_conv_trunc", "ConvFloat::try_conv_nearest",
+    "ConvFloat::try_conv_floor", "ConvFloat::try_conv_ceil", "Cast::try_cast", "CastApprox::try_cast_approx",
+    "CastFloat::try_cast_trunc", "CastFloat::try_cast_nearest", "CastFloat::try_cast_floor", "CastFloat::try_cast_ceil",
+    # ordered_float::OrderedFloat: a transparent wrapper; accessors
+    "OrderedFloat::into_inner", "OrderedFloat::new", "OrderedFloat", "NotNan::new", "NotNan::into_inner",
+    # polonius_the_crab glue (moves values between the two borrow scopes)
+    "polonius_the_crab::polonius", "PoloniusResult::Owned", "PoloniusResult::Borrowing", "Dependent<T>>::return_no_break",
+    "Residual>::with_output", "polonius_the_crab::ඞ::Try", "Try<std::result::Result<<fn() -> ! as polonius_the_crab::r#try::never_say_never::FnPtr>::Ret, Err>>>::branch",
+    # rayon adaptors (the closures they run are separate bodies, audited on their own)
+    "ParallelIterator::collect", "ParallelIterator::map", "ParallelIterator::map_init", "iter::repeatn", "IntoParallelIterator::into_par_iter",
+    "IntoParallelRefIterator::par_iter", "ParallelIterator::filter", "ParallelIterator::for_each",
+    # miette / thiserror formatting glue
+    "AsDisplay<'a>>::as_display", "AsDynError<'a>>::as_dyn_error",
+    "Diagnostic::code", "Diagnostic::severity", "Diagnostic::help", "Diagnostic::url", "Diagnostic::source_code", "Diagnostic::labels",
+    "Diagnostic::related", "Diagnostic::diagnostic_source",
+    # strum / itertools iteration helpers
+    "IntoEnumIterator::iter", "VariantNames", "EnumCount", "Itertools::collect_vec", "Itertools::sorted", "Itertools::join",
+    "Itertools::interleave", "Itertools::zip_eq", "Itertools::unique", "Itertools::dedup", "Itertools::tuple_windows",
+    "Itertools::try_collect", "Itertools::fold_ok", "Itertools::minmax", "Itertools::position_max", "Itertools::position_min",
 ]
+# impls of these std traits on third-party types are structural (derive-like) and assumed panic-free;
+# arithmetic operator impls are NOT on this list and are vetted per type below
+STRUCTURAL_TRAITS = ("std::clone::Clone", "std::cmp::PartialEq", "std::cmp::Eq", "std::cmp::PartialOrd", "std::cmp::Ord", "std::hash::Hash",
+                     "std::default::Default", "std::fmt::Debug", "std::fmt::Display", "std::convert::From", "std::convert::Into",
+                     "std::convert::AsRef", "std::borrow::Borrow", "std::ops::Deref", "std::ops::DerefMut", "std::iter::Iterator",
+                     "std::iter::IntoIterator", "std::iter::ExactSizeIterator", "std::iter::DoubleEndedIterator", "std::ops::Drop",
+                     "std::error::Error", "std::marker::Copy", "std::ops::Neg", "std::ops::Not")
+# operator impls vetted per type: OrderedFloat<f64> arithmetic is plain IEEE arithmetic (NotNan's is not: it panics on NaN)
+OPERATOR_IMPLS_NO_PANIC = ("<ordered_float::OrderedFloat<T> as std::ops::Add", "<ordered_float::OrderedFloat<T> as std::ops::Sub",
+                           "<ordered_float::OrderedFloat<T> as std::ops::Mul", "<ordered_float::OrderedFloat<T> as std::ops::Div",
+                           "<ordered_float::OrderedFloat<T> as std::ops::Rem", "<rand::distr::Bernoulli as rand::distr::Distribution<bool>>::sample")
+
+
+def classify_callee(path, rdef, krate):
+    """None (not a may-panic callee) | ("callee", what) | ("unvetted", what)"""
+    from .sym import last_seg
+    for p in (rdef, path):
+        if p and any(path_ends(p, n) for n in MAY_PANIC_CALLEES):
+            return ("callee", last_seg(p, 2))
+    if not krate or krate in STD_CRATES or krate in WORKSPACE:
+        return None
+    p = rdef or path
+    if any(p.startswith(x) for x in OPERATOR_IMPLS_NO_PANIC):
+        return None
+    if p.startswith("<") and " as " in p and any((" as " + t) in p for t in STRUCTURAL_TRAITS):
+        # `<X as std::ops::Neg>` etc. only for the structural list; operators Add/Sub/Mul/Div/Rem are excluded above
+        return None
+    if any(path_ends(q, n) or q.endswith(n) for q in (rdef, path) if q for n in THIRD_PARTY_NO_PANIC):
+        return None
+    return ("unvetted", last_seg(p, 2))
+
 
 IGNORED_ASSERTS = ("MisalignedPointerDereference", "NullPointerDereference")
 
@@ -147,35 +259,49 @@ def short_callee(path):
 
 def panic_sites(F, fids):
     """Enumerate may-panic sites in the given functions.  Each site:
-    {fn, kind: diverge|callee|assert, what, block, at, exp, macros, key}"""
+    {fn, kind: diverge|callee|unvetted|assert, what, block, at, exp, macros, key}
+    A function item that is only *mentioned* (passed uncalled to an adaptor) counts like a call of it."""
     out = []
     for fid in sorted(fids):
         fn = F.fns.get(fid)
         if fn is None:
             continue
         counters = {}
+
+        def add(site, bi, sp, t):
+            n = counters.get(site, 0)
+            counters[site] = n + 1
+            sp = sp or {}
+            out.append({
+                "fn": fid, "kind": site[0], "what": site[1], "block": bi, "ordinal": n,
+                "at": sp.get("at"), "exp": sp.get("exp", False), "macros": sp.get("macros", []),
+                "key": "%s#%s:%s#%d" % (fid, site[0], site[1], n),
+                "term": t,
+            })
+        values = {}
+        for kind, path, full, rdef, rlocal, bi, span, o in fn_uses(fn):
+            if kind == "value":
+                res = o.get("res") or {}
+                site = classify_callee(path, rdef, res.get("krate") or o.get("krate"))
+                if site:
+                    values.setdefault(bi, []).append((site, span, o))
         for bi, b in enumerate(fn.blocks):
             if b.get("cleanup"):
                 continue
+            for site, span, o in values.get(bi, []):
+                add((site[0], site[1] + "(as value)"), bi, span, o)
             t = b["term"]
             site = None
             if t["k"] == "call":
                 path = t.get("fn")
                 if t["target"] is None:
                     site = ("diverge", short_callee(path) if path else "<indirect>")
-                elif path and any(path_ends(path, n) for n in MAY_PANIC_CALLEES):
-                    site = ("callee", short_callee(path))
+                elif path:
+                    res = t.get("res") or {}
+                    site = classify_callee(path, res.get("def"), res.get("krate") or t.get("krate"))
             elif t["k"] == "assert":
                 if t["msg"] not in IGNORED_ASSERTS:
                     site = ("assert", t["msg"])
             if site:
-                n = counters.get(site, 0)
-                counters[site] = n + 1
-                sp = t.get("span") or {}
-                out.append({
-                    "fn": fid, "kind": site[0], "what": site[1], "block": bi, "ordinal": n,
-                    "at": sp.get("at"), "exp": sp.get("exp", False), "macros": sp.get("macros", []),
-                    "key": "%s#%s:%s#%d" % (fid, site[0], site[1], n),
-                    "term": t,
-                })
+                add(site, bi, t.get("span"), t)
     return out
